@@ -533,9 +533,71 @@ def free_post(c):
     return z3.And(*cl)
 
 
+def free_steps(c):
+    """the complete book-keeping of the two coalescing steps.  For a step with free neighbour R, current block A and
+    join result J (not None):  table[J.start] = J,  the absorbed slot is cleared (step 1: the original block's,
+    step 2: the next neighbour's),  R and A leave the free lists,  the high-water mark moves to J.start iff the
+    absorbed block stood at the mark,  and J is booked as free iff it lies below the (new) mark.  A step whose
+    neighbour is missing, in use, or does not join changes nothing."""
+    t = c.trace
+    s0, s1 = c.pre.self, c.post.self
+    off = s0.addr_offset
+    ip = [i for i, e in enumerate(t) if e[0] == 'find-prev']
+    inx = [i for i, e in enumerate(t) if e[0] == 'find-next']
+    if not ip:
+        return z3.BoolVal(True)                       # nothing to free: the other clause says "no effect"
+    if len(ip) != 1 or len(inx) != 1 or inx[0] < ip[0]:
+        return z3.BoolVal(False)
+    reads = [e for e in t[:ip[0]] if e[0] == 'read-slot']
+    pre_ev = [e for e in t[:ip[0]] if e[0] in ('slot', 'add-freed', 'remove-freed', 'join')]
+    cl = [z3.BoolVal(len(reads) == 1), reads[0][1] == c.addr - off if reads else z3.BoolVal(False),
+          z3.BoolVal(len(pre_ev) == 1 and pre_ev[0][0] == 'add-freed' and pre_ev[0][1].oid == 'block'),
+          t[ip[0]][1].z == c.addr if t[ip[0]][1].k == 'int' else z3.BoolVal(False)]      # previous neighbour OF addr
+    top = s0.top
+    cur = 'block'
+    for which, seg, absorbed in (('prev', t[ip[0] + 1:inx[0]], 'block'), ('next', t[inx[0] + 1:], 'next')):
+        ev = [e for e in seg if e[0] in ('slot', 'add-freed', 'remove-freed', 'join')]
+        free_nb = z3.And(z3.Not(z3.Bool(which + '_is_none')), z3.Not(z3.Bool(which + '.used')))
+        js = [e for e in ev if e[0] == 'join']
+        cl.append(z3.BoolVal(len(js) == 1) == free_nb)                 # a join is attempted iff the neighbour is free
+        if len(js) > 1:
+            return z3.BoolVal(False)
+        if not js:
+            cl.append(z3.BoolVal(not ev))                               # and nothing else happens in this step
+            continue
+        j = js[0]
+        J = j[3]
+        ok = j[1].oid == which and j[2].oid == cur and ev[0] is j
+        rest = ev[1:]
+        joined = z3.Not(J.extra['maybe_none'])
+        jstart = z3.Int(J.oid + '.start')
+        astart = z3.Int(absorbed + '.start')
+        new_top = z3.If(astart == top, jstart, top)
+        slots = [e for e in rest if e[0] == 'slot']
+        rems = [e[1].oid for e in rest if e[0] == 'remove-freed']
+        adds = [e[1].oid for e in rest if e[0] == 'add-freed']
+        full = [z3.BoolVal(bool(ok) and len(slots) == 2 and sorted(rems) == sorted([which, cur]) and adds in ([], [J.oid]))]
+        if len(slots) == 2:
+            stored = [e for e in slots if e[2].k == 'ref' and e[2].oid == J.oid]
+            cleared = [e for e in slots if e[2].k == 'none']
+            full.append(z3.BoolVal(len(stored) == 1 and len(cleared) == 1))
+            if len(stored) == 1 and len(cleared) == 1:
+                full += [stored[0][1] == jstart - off, cleared[0][1] == astart - off]
+        full.append(z3.BoolVal(adds == [J.oid]) == (new_top > jstart))
+        cl.append(z3.If(joined, z3.And(*full), z3.BoolVal(not rest)))
+        top = z3.If(joined, new_top, top)
+        cur_after = J.oid
+        # the block the second step works with: the joined one iff step 1 joined (both cases are separate paths)
+        if which == 'prev':
+            cur = J.oid if any(e[0] == 'slot' for e in rest) else 'block'
+    cl.append(s1.top == top)
+    return z3.And(*cl)
+
+
 contract(F, 'ContiguousBlockAllocator.free', props=('C16',),
          params={'self': 'self', 'addr': ['none', 'int']},
-         ensures=[('no-effect-unless-a-used-block;released,booked,coalesced-with-the-joined-block-carried-over', free_post)],
+         ensures=[('no-effect-unless-a-used-block;released,booked,coalesced-with-the-joined-block-carried-over', free_post),
+                  ('table,free-lists-and-high-water-mark-updated-per-joined-neighbour', free_steps)],
          modifies=[('self', 'top'), ('block', 'used')],
          fields={'ContiguousBlockAllocator': {'_array': 'obj', 'addr_offset': 'int', 'top': 'int', 'size': 'int',
                                               'pos': 'int', '_freed': 'obj'}, 'Blk': BLK},
